@@ -37,6 +37,8 @@ type lossyLink struct {
 	drop, dup float64
 	delayMax  time.Duration
 	cut       int32
+	reset     chan struct{} // closed when the link is reset: both ends see errors at once (a TCP backend whose connection broke)
+	resetOnce sync.Once
 	mu        sync.Mutex
 	rng       *rand.Rand
 }
@@ -56,6 +58,11 @@ func (e *lossyEnd) Send(p []byte) error {
 	select {
 	case <-e.closed:
 		return fmt.Errorf("session closed")
+	default:
+	}
+	select {
+	case <-e.link.reset:
+		return fmt.Errorf("link is down")
 	default:
 	}
 	if atomic.LoadInt32(&e.link.cut) != 0 {
@@ -90,6 +97,8 @@ func (e *lossyEnd) Recv(timeout time.Duration) ([]byte, error) {
 	case b := <-e.in:
 		return b, nil
 	case <-e.closed:
+		return nil, io.EOF
+	case <-e.link.reset:
 		return nil, io.EOF
 	case <-time.After(timeout):
 		return nil, ErrTimeout
@@ -135,6 +144,7 @@ type streamArgs struct {
 	Chunk   int     `json:"chunk"`   // largest write
 	Bridged bool    `json:"bridged"` // both ends behind BridgeConns + a Unix socket pair
 	AltPath bool    `json:"alt_path"` // a second, dearer path; the first link of the cheap path is cut during the transfer
+	CutMode string  `json:"cut_mode"` // "" the cut link swallows datagrams (noticed by the idle time-out); "reset": both ends get errors at once
 	Seed    int64   `json:"seed"`
 	// duplex: both sides write and close their writing side on their own.
 	// oneway: only one side writes (and closes at once after its last write); the other closes after it has seen end-of-stream.
@@ -243,7 +253,7 @@ func streamApply(op string, raw json.RawMessage) interface{} {
 		}
 	}()
 	newLink := func() *lossyLink {
-		return &lossyLink{drop: a.Drop, dup: a.Dup, delayMax: time.Duration(a.DelayMs) * time.Millisecond, rng: rand.New(rand.NewSource(rng.Int63()))}
+		return &lossyLink{drop: a.Drop, dup: a.Dup, delayMax: time.Duration(a.DelayMs) * time.Millisecond, rng: rand.New(rand.NewSource(rng.Int63())), reset: make(chan struct{})}
 	}
 	var firstLink *lossyLink
 	for i := 0; i+1 < len(nodes); i++ {
@@ -334,6 +344,11 @@ func streamApply(op string, raw json.RawMessage) interface{} {
 	}
 	if a.AltPath {
 		go func() {
+			if a.CutMode == "reset" {
+				time.Sleep(time.Duration(40+rng.Intn(160)) * time.Millisecond)
+				firstLink.resetOnce.Do(func() { close(firstLink.reset) })
+				return
+			}
 			time.Sleep(time.Duration(100+rng.Intn(400)) * time.Millisecond)
 			atomic.StoreInt32(&firstLink.cut, 1)
 		}()
@@ -390,6 +405,17 @@ func streamGen(v *verifRun) {
 			a.A2B, a.B2A = 200000, 70000
 			a.Chunk = 1200
 			a.DelayMs = 5
+			if v.rng.Intn(2) == 0 {
+				// the link breaks with errors while both directions are busy; the ends are direct neighbours half of the time
+				a.CutMode = "reset"
+				a.A2B, a.B2A = 3000000, 3000000
+				a.Chunk = 70000
+				a.DelayMs, a.Drop, a.Dup = 0, 0, 0
+				a.Bridged = false
+				if v.rng.Intn(2) == 0 {
+					a.Hops = 1
+				}
+			}
 		}
 		v.do(streamApply, "transfer", a)
 	}
